@@ -3,6 +3,7 @@ import CbiVerif.Drv.PP
 import CbiVerif.Drv.Metrics
 import CbiVerif.Drv.C06
 import CbiVerif.Drv.C06Compose
+import CbiVerif.Drv.C14Compose
 import CbiVerif.Drv.Dups
 import CbiVerif.Drv.DbPath
 import CbiVerif.Drv.Exclude
@@ -34,6 +35,7 @@ def handlerTable : List (String × (Json → Json)) :=
   CbiVerif.Drv.Metrics.handlers ++
   CbiVerif.Drv.C06.handlers ++
   CbiVerif.Drv.C06Compose.handlers ++
+  CbiVerif.Drv.C14Compose.handlers ++
   CbiVerif.Drv.Dups.handlers ++
   CbiVerif.Drv.DbPath.handlers ++
   CbiVerif.Drv.Exclude.handlers ++
